@@ -335,7 +335,207 @@ def case_outside(i, case, out):
             el, len(bad), len(pts), [b[0] for b in bad[:2]], int(inbox.sum())), [b[0] for b in bad[:4]], [])
 
 
-CASES = {"geom": case_geom, "locate_gmsh": case_locate_gmsh, "locate_single": case_locate_single, "outside": case_outside}
+# ------------------------------------------------------------------ purity of the geometry queries
+def _snap(mesh):
+    return mesh.coord.copy(), {et.name: np.array(g.coord, copy=True) for et, g in mesh.dict_groupElem.items()}
+
+
+def _same(a, b):
+    if isinstance(a, (tuple, list)):
+        return len(a) == len(b) and all(_same(x, y) for x, y in zip(a, b))
+    a, b = np.asarray(a), np.asarray(b)
+    if a.dtype == object or b.dtype == object:
+        return a.shape == b.shape and all(_same(x, y) for x, y in zip(a.ravel(), b.ravel()))
+    return a.shape == b.shape and np.array_equal(a, b, equal_nan=True)
+
+
+def _coords_changed(mesh, snap):
+    bad = []
+    if not np.array_equal(mesh.coord, snap[0]):
+        bad.append("mesh.coord (max |d| %.3e)" % float(np.abs(mesh.coord - snap[0]).max()))
+    for et, g in mesh.dict_groupElem.items():
+        if not np.array_equal(np.asarray(g.coord), snap[1][et.name]):
+            bad.append("%s.coord (max |d| %.3e)" % (et.name, float(np.abs(np.asarray(g.coord) - snap[1][et.name]).max())))
+    return bad
+
+
+def deformation(mesh, seed):
+    """smooth, non-affine displacement field of moderate size, (Nn, 3); in-plane for planar meshes"""
+    rng = np.random.default_rng(seed)
+    X = np.asarray(mesh.coord)
+    a = rng.uniform(-0.05, 0.05, size=(3, 3))
+    b = rng.uniform(0.02, 0.06, size=3)
+    U = X @ a.T + np.stack([b[0] * np.sin(X[:, 1]), b[1] * np.cos(X[:, 0]), b[2] * np.sin(X[:, 0] + X[:, 1])], axis=1)
+    if mesh.inDim == 2:
+        U[:, 2] = 0.0
+    return U
+
+
+def query_families(mesh, U, pts, field_values):
+    """(name, thunk) for every geometry query family exercised by this harness, with and without the
+    deformed-configuration option."""
+    Mesher, ElemType, Points, Point, Mesh, MatrixType, F = _imports()
+    dim = mesh.dim
+    g = mesh.groupElem
+    qs = []
+    mt = MatrixType.mass
+    groups = [(g.elemType.name, g)] + [(b.elemType.name, b) for b in mesh.Get_list_groupElem(dim - 1)]
+    for nm, gr in groups:
+        if gr.dim in (1, 2):
+            qs.append(("Get_normals_e_pg:%s" % nm, lambda gr=gr: gr.Get_normals_e_pg(mt)))
+            qs.append(("Get_normals_e_pg:displacementMatrix:%s" % nm, lambda gr=gr: gr.Get_normals_e_pg(mt, U)))
+            qs.append(("Get_normals_e_pg:displacementMatrix:raw:%s" % nm, lambda gr=gr: gr.Get_normals_e_pg(mt, U, normalize=False)))
+            qs.append(("_Get_sysCoord_e:%s" % nm, lambda gr=gr: gr._Get_sysCoord_e()))
+            qs.append(("_Get_sysCoord_e:displacementMatrix:%s" % nm, lambda gr=gr: gr._Get_sysCoord_e(U)))
+        qs.append(("Get_GaussCoordinates_e_pg:%s" % nm, lambda gr=gr: gr.Get_GaussCoordinates_e_pg(mt)))
+        qs.append(("Get_GaussCoordinates_e_pg:displacementMatrix:%s" % nm, lambda gr=gr: gr.Get_GaussCoordinates_e_pg(mt, displacementMatrix=U)))
+        qs.append(("jacobian/F/invF:%s" % nm, lambda gr=gr: (gr.Get_jacobian_e_pg(mt), gr.Get_F_e_pg(mt), gr.Get_invF_e_pg(mt))))
+        qs.append(("Integrate_e:%s" % nm, lambda gr=gr: gr.Integrate_e(lambda x, y, z: x + 2 * y - z, mt)))
+    qs.append(("Mesh.Get_normals", lambda: mesh.Get_normals()))
+    qs.append(("Mesh.Get_normals:displacementMatrix", lambda: mesh.Get_normals(displacementMatrix=U)))
+    qs.append(("measure/center", lambda: ((mesh.area if dim == 2 else mesh.volume), mesh.center, g.center)))
+    qs.append(("Get_Mapping", lambda: g.Get_Mapping(pts, needCoordinates=True)))
+    qs.append(("Evaluate_dofsValues_at_coordinates", lambda: mesh.Evaluate_dofsValues_at_coordinates(pts, field_values)))
+    return qs
+
+
+def case_purity(i, case, out):
+    rng = np.random.default_rng(case["seed"])
+    mesh, dim = build_mesh(case)
+    el = case["elem"]
+    U = deformation(mesh, case["seed"])
+    inter, nodes, edges = query_pool(mesh, rng, 6)
+    pts = np.vstack([inter, nodes[:2], edges[:2]])
+    X0 = mesh.coord.copy()
+    fv = 1 + X0[:, 0] - 2 * X0[:, 1] + 0.5 * X0[:, 2]
+    snap = _snap(mesh)
+    meas0 = measure_of(mesh, dim)
+    for name, q in query_families(mesh, U, pts, fv):
+        fam = name.rsplit(":", 1)[0] if name.split(":")[-1].isupper() or name.split(":")[-1][:3] in ("SEG", "TRI", "QUA", "TET", "HEX", "PRI") else name
+        try:
+            with warnings.catch_warnings():
+                warnings.simplefilter("ignore")
+                r1 = q()
+                ch1 = _coords_changed(mesh, snap)
+                r2 = q()
+                ch2 = _coords_changed(mesh, snap)
+        except Exception as ex:
+            res(out, i, "purity:raises:%s" % fam, "purity:%s:%s" % (el, name), False, "%s mesh, query %s raises %s: %s" % (el, name, type(ex).__name__, str(ex)[:150]))
+            continue
+        ch = ch1 or ch2
+        res(out, i, "purity:coordinates-changed:%s" % fam, "purity:%s:%s" % (el, name), not ch,
+            "%s mesh: after the read-only query %s the stored coordinates %s" % (el, name, "differ: " + "; ".join(ch) if ch else "are bit-identical"),
+            ch, [])
+        rep = _same(r1, r2)
+        res(out, i, "purity:not-repeatable:%s" % fam, "repeat:%s:%s" % (el, name), rep,
+            "%s mesh: the query %s repeated on the same mesh returns %s" % (el, name, "the same values" if rep else "DIFFERENT values"))
+        if ch:   # restore, so that the next query family is judged on its own
+            for gg in mesh.dict_groupElem.values():
+                gg.coord = snap[0].copy()
+    m1 = measure_of(mesh, dim)
+    res(out, i, "purity:measure-after-queries", "purity-measure:%s" % el, abs(m1 - meas0) <= TOL * meas0,
+        "%s mesh: measure after all queries %.15g, before %.15g" % (el, m1, meas0), m1, meas0)
+
+
+def explicit_copy(mesh, Xnew):
+    Mesher, ElemType, Points, Point, Mesh, MatrixType, F = _imports()
+    return Mesh({et: F.Create(et, np.asarray(g.connect), np.asarray(Xnew, float).copy()) for et, g in mesh.dict_groupElem.items()})
+
+
+def case_deformed(i, case, out):
+    """the deformed-configuration option (displacementMatrix = U) against the same query on a mesh
+    whose coordinates were explicitly set to X + U; each query is issued twice."""
+    Mesher, ElemType, Points, Point, Mesh, MatrixType, F = _imports()
+    mesh, dim = build_mesh(case)
+    el = case["elem"]
+    U = deformation(mesh, case["seed"])
+    X = mesh.coord.copy()
+    ref = explicit_copy(mesh, X + U)
+    mt = MatrixType.mass
+    L = float(np.abs(X).max()) + 1.0
+    groups = [(g.elemType, g) for g in [mesh.groupElem] + list(mesh.Get_list_groupElem(dim - 1))]
+    for et, g in groups:
+        g2 = ref.dict_groupElem[et]
+        qs = [("Get_GaussCoordinates_e_pg", lambda: g.Get_GaussCoordinates_e_pg(mt, displacementMatrix=U), lambda: g2.Get_GaussCoordinates_e_pg(mt), L)]
+        if g.dim in (1, 2) and (g.dim == 2 or mesh.inDim == 2):
+            qs += [("Get_normals_e_pg", lambda: g.Get_normals_e_pg(mt, U), lambda: g2.Get_normals_e_pg(mt), 1.0),
+                   ("Get_normals_e_pg:raw", lambda: g.Get_normals_e_pg(mt, U, normalize=False), lambda: g2.Get_normals_e_pg(mt, normalize=False), L),
+                   ("_Get_sysCoord_e", lambda: g._Get_sysCoord_e(U), lambda: g2._Get_sysCoord_e(), 1.0)]
+        for name, q, qref, scale in qs:
+            expv = np.asarray(qref())
+            for call in ("first", "second"):
+                v = np.asarray(q())
+                err = float(np.abs(v - expv).max() / scale)
+                res(out, i, "deformed:%s:%s-call" % (name, call), "deformed:%s:%s:%s:%s" % (el, et.name, name, call), err <= TOL,
+                    "%s mesh, group %s: %s with displacementMatrix=U (%s call) vs the same query on the mesh with coordinates X+U: max difference %.3e" % (el, et.name, name, call, err),
+                    err, 0)
+    n_ref, nodes_ref = ref.Get_normals()
+    for call in ("first", "second"):
+        n, nodes = mesh.Get_normals(displacementMatrix=U)
+        ok = np.array_equal(nodes, nodes_ref) and float(np.abs(n - n_ref).max()) <= TOL
+        res(out, i, "deformed:Mesh.Get_normals:%s-call" % call, "deformed:%s:Mesh.Get_normals:%s" % (el, call), ok,
+            "%s mesh: Mesh.Get_normals(displacementMatrix=U) (%s call) vs Get_normals() of the mesh with coordinates X+U: max difference %.3e" % (
+                el, call, float(np.abs(n - n_ref).max()) if n.shape == n_ref.shape else float("nan")))
+    ch = float(np.abs(mesh.coord - X).max())
+    res(out, i, "purity:coordinates-changed:displacementMatrix-queries", "deformed-pure:%s" % el, ch == 0.0,
+        "%s mesh: after the deformed-configuration queries mesh.coord moved by %.3e" % (el, ch), ch, 0)
+
+
+# ------------------------------------------------------------------ orientation of the `faces` tables
+FACE_TYPE = {3: "TRI3", 6: "TRI6", 4: "QUAD4", 8: "QUAD8", 9: "QUAD9"}
+
+
+def face_table_checks(i, out, mesh, el, stage):
+    Mesher, ElemType, Points, Point, Mesh, MatrixType, F = _imports()
+    from EasyFEA.Utilities import MeshIO
+    g = mesh.groupElem
+    X = np.asarray(mesh.coord)
+    conn = np.asarray(g.connect)
+    mt = MatrixType.mass
+    sdet = np.sign(np.asarray(g.Get_jacobian_e_pg(mt, absoluteValues=False))[:, 0])
+    cen_e = X[conn].mean(1)
+    bad = []
+    for k, row in enumerate(g.faces):
+        row = [int(a) for a in row]
+        gf = F.Create(getattr(ElemType, FACE_TYPE[len(row)]), conn[:, row], X)
+        n = np.einsum("epd,p->ed", np.asarray(gf.Get_normals_e_pg(mt, normalize=False)), gf.Get_weight_pg(mt))
+        outv = X[conn[:, row]].mean(1) - cen_e
+        s = np.sign(np.einsum("ed,ed->e", n, outv))
+        if np.any(s * sdet <= 0):
+            bad.append((k, row))
+    res(out, i, "faces-table-orientation:%s" % el, "facesorient:%s:%s" % (el, stage), not bad,
+        "%s (%s, %d element(s), det J %s): right-hand-rule normal of the `faces` rows %s points %s" % (
+            el, stage, g.Ne, "> 0" if sdet[0] > 0 else "< 0", [b[1] for b in bad] if bad else "all",
+            "INTO the element while the other rows point out (for det J > 0)" if bad else "out of the element for det J > 0 (into it for det J < 0), consistently"),
+        [b[0] for b in bad], [])
+    m2 = MeshIO.Surface_reconstruction(Mesh({g.elemType: g}))
+    N, flux, per = boundary_integrals(m2, 3)
+    V = mesh.volume
+    L = float(np.abs(X).max()) + 1.0
+    ok = np.max(np.abs(N)) <= 1e-9 * max(V / L, 1e-3) and abs(abs(flux) - 3 * V) <= 1e-9 * 3 * V
+    res(out, i, "faces-table-closure:%s" % el, "facesclosed:%s:%s" % (el, stage), ok,
+        "%s (%s): boundary rebuilt by Surface_reconstruction from the `faces` table: integral of the normal %s (must vanish), |flux of x| %.12g vs 3*volume %.12g" % (
+            el, stage, np.round(N, 12).tolist(), abs(flux), 3 * V), [N.tolist(), flux], [[0, 0, 0], 3 * V])
+
+
+def case_faces(i, case, out):
+    Mesher, ElemType, Points, Point, Mesh, MatrixType, F = _imports()
+    el = case["elem"]
+    if case.get("gmsh"):
+        mesh, dim = build_mesh(case)
+    else:
+        X, et, dim = place_nodes(el, case["verts"])
+        n = len(X)
+        # two copies of the element, the second translated: element 1 is not element 0
+        X2 = np.vstack([X, X + np.array(case.get("shift", [5.0, 1.0, 0.5]))])
+        mesh = Mesh({et: F.Create(et, np.vstack([np.arange(n), np.arange(n) + n]), X2)})
+    face_table_checks(i, out, mesh, el, "as-built")
+    for mo in case["motions"]:
+        apply_motion(mesh, mo, np.zeros((1, 3)))
+        face_table_checks(i, out, mesh, el, "after-" + mo["t"])
+
+
+CASES = {"purity": case_purity, "deformed": case_deformed, "faces": case_faces, "geom": case_geom, "locate_gmsh": case_locate_gmsh, "locate_single": case_locate_single, "outside": case_outside}
 
 
 def run_cases(cases):
